@@ -82,8 +82,8 @@ func TakeSnap(w *world.World, ctx sdk.Context) *Snap {
 }
 
 func (s *Snap) Bal(addr sdk.AccAddress) sdk.Int { return s.w.Bal(s.ctx, addr) }
-func (s *Snap) BalS(addr string) sdk.Int      { return s.w.Bal(s.ctx, sdk.MustAccAddressFromBech32(addr)) }
-func (s *Snap) ModBal(mod string) sdk.Int      { return s.w.Bal(s.ctx, world.ModAddr(mod)) }
+func (s *Snap) BalS(addr string) sdk.Int        { return s.w.Bal(s.ctx, sdk.MustAccAddressFromBech32(addr)) }
+func (s *Snap) ModBal(mod string) sdk.Int       { return s.w.Bal(s.ctx, world.ModAddr(mod)) }
 
 func sortedKeys[V any](m map[string]V) []string {
 	var ks []string
